@@ -305,7 +305,9 @@ func main() {
 		}
 	}
 
-	extra(add)
+	for _, e := range extras {
+		e(add)
+	}
 
 	if len(lost) > 0 {
 		for _, l := range lost {
